@@ -209,6 +209,18 @@ func runC15(t *Trace, r *Rng, tier string, _ []string) {
 					must(err)
 					b := w.NewBatch()
 					n := rr.Intn(5)
+					// half of the batches are built the way the upsidedown index builds them: NewBatchEx with the byte
+					// budget worked out beforehand, every key and value carved out of the buffer it returns
+					exBuf := []byte(nil)
+					viaEx := rr.Chance(50)
+					type exOp struct {
+						kind byte
+						k, v []byte
+					}
+					var exOps []exOp
+					if viaEx {
+						n = rr.Intn(14)
+					}
 					var sb strings.Builder
 					sb.WriteString("batch")
 					used := map[string]byte{} // no merge + set/delete of one key in a batch (stores differ; upsidedown never does it)
@@ -223,7 +235,7 @@ func runC15(t *Trace, r *Rng, tier string, _ []string) {
 						}
 						// moss (the engine) keeps an arbitrary one of several set/delete ops on one key inside one
 						// batch; those batches are explored separately (category moss-dupkey), see DESIGN.md C15
-						if _, ok := used[string(k)]; ok && sn == "moss" && kind != 'm' {
+						if _, ok := used[string(k)]; ok && (sn == "moss" || viaEx) && kind != 'm' { // viaEx reorders: sets, deletes, merges
 							continue
 						}
 						used[string(k)] = kind
@@ -233,15 +245,69 @@ func runC15(t *Trace, r *Rng, tier string, _ []string) {
 							if rr.Chance(15) {
 								v = []byte{}
 							}
-							b.Set(k, v)
+							if viaEx {
+								exOps = append(exOps, exOp{'s', k, v})
+							} else {
+								b.Set(k, v)
+							}
 							fmt.Fprintf(&sb, " s %s %s", hx(k), hx(v))
 						case 'd':
-							b.Delete(k)
+							if viaEx {
+								exOps = append(exOps, exOp{'d', k, nil})
+							} else {
+								b.Delete(k)
+							}
 							fmt.Fprintf(&sb, " d %s", hx(k))
 						case 'm':
 							v := []byte(fmt.Sprintf("%d", rr.Intn(10)))
-							b.Merge(k, v)
+							if viaEx && rr.Chance(50) {
+								v = []byte(fmt.Sprintf("%d", 100000+rr.Intn(900000))) // operands of differing lengths
+							}
+							if viaEx {
+								exOps = append(exOps, exOp{'m', k, v})
+							} else {
+								b.Merge(k, v)
+							}
 							fmt.Fprintf(&sb, " m %s %s", hx(k), hx(v))
+						}
+					}
+					if viaEx {
+						// sets first, then deletes, then merges, as batchRows does
+						opts := store.KVBatchOptions{}
+						for _, o := range exOps {
+							switch o.kind {
+							case 's':
+								opts.NumSets++
+								opts.TotalBytes += len(o.k) + len(o.v)
+							case 'd':
+								opts.NumDeletes++
+								opts.TotalBytes += len(o.k)
+							case 'm':
+								opts.NumMerges++
+								opts.TotalBytes += 2 * (len(o.k) + len(o.v))
+							}
+						}
+						var err error
+						_ = b.Close()
+						exBuf, b, err = w.NewBatchEx(opts)
+						must(err)
+						for _, kind := range []byte{'s', 'd', 'm'} {
+							for _, o := range exOps {
+								if o.kind != kind {
+									continue
+								}
+								kl := copy(exBuf, o.k)
+								vl := copy(exBuf[kl:], o.v)
+								switch kind {
+								case 's':
+									b.Set(exBuf[:kl], exBuf[kl:kl+vl])
+								case 'd':
+									b.Delete(exBuf[:kl])
+								case 'm':
+									b.Merge(exBuf[:kl], exBuf[kl:kl+vl])
+								}
+								exBuf = exBuf[kl+vl:]
+							}
 						}
 					}
 					// close readers that would block a boltdb write (mmap growth waits for read transactions)
